@@ -16,7 +16,7 @@ class C02(Prop):
     CASE_HEADER = ("From Boreal Require Import Base.Prelude Spec.Regex Model.Hir Model.Widen Model.Validator "
                    "Model.Raw Model.HirScan Model.HexCase.")
     HARNESS_BINS = ("c02",)
-    KF = {1: "C02-start-position", 3: "C02-alt-glue"}
+    KF = {1: "C02-start-position", 3: "C02-alt-glue", 5: "C02-length-by-arrival"}
     RULE = ("hex token ASTs (bytes, ?X, X?, ??, ~XX, ~?X, ~X?, [n], [n-m], [n-], [-m], nested alternatives of unequal "
             "lengths, depth <= 3) printed to YARA syntax, compiled by the real engine; per pattern 4 inputs <= 64 "
             "bytes made of members / near-members of L(p) spliced and overlapped into noise drawn from the pattern's "
